@@ -789,8 +789,11 @@ fn functions(ctx: &mut Ctx) {
             // values of 1, 8, 13 and 64 bits, as functions and as filters
             let kinds: Vec<Kind> = if n <= 10_000 {
                 vec![Kind::FuncBox64, Kind::FuncBox8, Kind::FuncBfv(1), Kind::FuncBfv(13), Kind::FuncBfv(64), Kind::FilterBox8, Kind::FilterBfv(1), Kind::FilterBfv(13), Kind::FilterBfv(64)]
-            } else if n <= 800_000 {
+            } else if n <= 150_000 {
                 vec![Kind::FuncBox8, Kind::FuncBfv(13), Kind::FuncBfv(64), Kind::FilterBox8, Kind::FilterBfv(1)]
+            } else if n <= 800_000 {
+                // the number of cells does not depend on the kind: three kinds are enough at size
+                vec![Kind::FuncBox8, Kind::FuncBfv(13), Kind::FilterBfv(1)]
             } else {
                 vec![Kind::FuncBfv(13), Kind::FilterBox8]
             };
